@@ -110,3 +110,19 @@ func VerifV2Buffers(dc *DualContouringV2, s sdf.SDF3) *VerifV2Mesh {
 	}
 	return out
 }
+
+type verifBoxField struct{ bb sdf.Box3 }
+
+func (f verifBoxField) Evaluate(p v3.Vec) float64 { return 1 }
+func (f verifBoxField) BoundingBox() sdf.Box3     { return f.bb }
+
+// VerifV1BoundVertex calls dcBoundVertexPosition for the size-1 leaf at minOffset of an octree of
+// cells^3 cells over the box [0,cells]^3 and a QEF solver holding the given mass point sum and count.
+func VerifV1BoundVertex(cells int, minOffset v3i.Vec, q, massPointSum v3.Vec, numPoints int) v3.Vec {
+	c := float64(cells)
+	d := verifBoxField{sdf.Box3{Max: v3.Vec{X: c, Y: c, Z: c}}}
+	leaf := &dcOctree{kind: dcOctreeNodeTypeLeaf, minOffset: minOffset, size: 1, meshSize: cells,
+		cellCounts: v3i.Vec{X: cells, Y: cells, Z: cells}}
+	solver := &dcQefSolver{massPointSum: massPointSum, numPoints: numPoints}
+	return dcBoundVertexPosition(d, leaf, q, solver)
+}
